@@ -92,6 +92,12 @@ func semanticTokensForTraversal(traversal hcl.Traversal) []lang.SemanticToken {
 				},
 			}
 
+			if idxRange.Empty() || idxRange.End.Byte < idxRange.Start.Byte || idxRange.End.Column < 1 {
+				// incomplete index step (e.g. missing closing bracket
+				// while typing), there is nothing inside brackets to report
+				continue
+			}
+
 			if ts.Key.Type() == cty.String {
 				tokens = append(tokens, lang.SemanticToken{
 					Type:      lang.TokenMapKey,
